@@ -59,6 +59,11 @@ Proof. intros Ha Hz. apply rd_s_at; [lia | exact Ha | exact Hz]. Qed.
 Lemma rd_s2_at bo p z s a : a = zlen p -> in16 z -> rd_s 2 bo (p ++ pack 2 bo z ++ s) a = Ok z.
 Proof. intros Ha Hz. apply rd_s_at; [lia | exact Ha | exact Hz]. Qed.
 
+Lemma rd_s4_at0 bo z s : in32 z -> rd_s 4 bo (pack 4 bo z ++ s) 0 = Ok z.
+Proof. intros Hz. apply (rd_s4_at bo [] z s 0); [reflexivity | exact Hz]. Qed.
+Lemma rd_s2_at0 bo z s : in16 z -> rd_s 2 bo (pack 2 bo z ++ s) 0 = Ok z.
+Proof. intros Hz. apply (rd_s2_at bo [] z s 0); [reflexivity | exact Hz]. Qed.
+
 Lemma zlen_orient bo l : zlen (orient bo l) = zlen l.
 Proof. unfold zlen. rewrite orient_length. reflexivity. Qed.
 
@@ -287,16 +292,27 @@ Proof.
   reflexivity.
 Qed.
 
-Lemma parse_entries_enc bo rs : forall pre post p,
-  p = zlen pre -> Forall wf_res rs ->
-  parse_mmap_entries (length rs) (pre ++ concat (map (enc_res bo) rs) ++ post) p bo = Ok (map view_res rs).
+Lemma parse_entries_enc bo rs : forall fuel pre post p,
+  (length rs < fuel)%nat -> p = zlen pre -> Forall wf_res rs ->
+  parse_mmap_entries fuel (zlen rs) (pre ++ concat (map (enc_res bo) rs) ++ post) p bo = Ok (map view_res rs).
 Proof.
-  induction rs as [|r rs IH]; intros pre post p -> Hwf; cbn [length parse_mmap_entries map concat]; [reflexivity|].
-  inversion Hwf as [|? ? Hr Hrs]; subst.
-  rewrite <- app_assoc. rewrite parse_mmap_resource_at by auto. cbn [bind].
-  replace (pre ++ enc_res bo r ++ concat (map (enc_res bo) rs) ++ post)
-    with ((pre ++ enc_res bo r) ++ concat (map (enc_res bo) rs) ++ post) by (rewrite <- app_assoc; reflexivity).
-  rewrite IH; [reflexivity | rewrite zlen_app, (zlen_enc_res bo r (proj1 Hr)); reflexivity | exact Hrs].
+  induction rs as [|r rs IH]; intros fuel pre post p Hf -> Hwf.
+  - destruct fuel; reflexivity.
+  - destruct fuel as [|f]; [cbn in Hf; lia|].
+    cbn [parse_mmap_entries map concat]. rewrite zlen_cons.
+    pose proof (zlen_nonneg rs). destruct (Z.leb_spec (1 + zlen rs) 0); [lia|].
+    inversion Hwf as [|? ? Hr Hrs]; subst.
+    rewrite <- app_assoc. rewrite parse_mmap_resource_at by auto. cbn [bind].
+    replace (pre ++ enc_res bo r ++ concat (map (enc_res bo) rs) ++ post)
+      with ((pre ++ enc_res bo r) ++ concat (map (enc_res bo) rs) ++ post) by (rewrite <- app_assoc; reflexivity).
+    replace (1 + zlen rs - 1) with (zlen rs) by lia.
+    rewrite IH; [reflexivity | cbn in Hf; lia | rewrite zlen_app, (zlen_enc_res bo r (proj1 Hr)); reflexivity | exact Hrs].
+Qed.
+
+Lemma length_concat_enc_res bo rs : Forall wf_res rs -> (length rs <= length (concat (map (enc_res bo) rs)))%nat.
+Proof.
+  induction 1 as [|r rs Hr _ IH]; [cbn; lia|]. cbn [map concat length]. rewrite app_length.
+  pose proof (zlen_enc_res bo r (proj1 Hr)) as H. unfold zlen in H. lia.
 Qed.
 
 Theorem mmap_roundtrip bo h rs tail :
@@ -315,10 +331,12 @@ Proof.
   rewrite HLn. cbn [Nat.eqb negb].
   replace H with ([] ++ H ++ []) at 1 by (cbn [app]; apply app_nil_r).
   unfold H at 1. rewrite read_enc_layout; [| reflexivity | exact Hh]. cbn [bind].
-  change (getv (hdr_vals h) 3) with (h_used h). rewrite Hu. unfold zlen at 1. rewrite Nat2Z.id.
+  change (getv (hdr_vals h) 3) with (h_used h). rewrite Hu.
   replace ((H ++ concat (map (enc_res bo) rs)) ++ tail) with (H ++ concat (map (enc_res bo) rs) ++ tail)
     by (rewrite <- app_assoc; reflexivity).
-  rewrite parse_entries_enc; [| rewrite HL; reflexivity | exact Hrs]. cbn [bind].
+  rewrite parse_entries_enc; [| | rewrite HL; reflexivity | exact Hrs].
+  2:{ rewrite !app_length. pose proof (length_concat_enc_res bo rs Hrs). lia. }
+  cbn [bind].
   rewrite <- Hu. destruct h; reflexivity.
 Qed.
 
